@@ -472,8 +472,12 @@ def search(props, seed, budget, seg_choices=(False, True), focus=None, max_steps
         seg = rng.choice(seg_choices)
         spec = random_forest(rng, rng.randrange(2, 8), rng.randrange(2, 5))
         sc = {"graph": spec, "seg": seg, "steps": [], "enable": (["iou"] if seg and rng.random() < 0.7 else None)}
+        if seg and rng.random() < 0.5:
+            # voxel sizes: unit and isotropic non-unit (time scale 1); anisotropic 2D spacings are left out because skimage
+            # refuses perimeter / circularity for them (NotImplementedError - a documented limit, not a property violation)
+            sc["scale"] = rng.choice([[1, 1, 1], [1, 2, 2], [1, 0.5, 0.5], [1, 3, 3]])
         try:
-            tr = build_tracks(spec, seg=seg)
+            tr = build_tracks(spec, seg=seg, scale=sc.get("scale"))
             if sc["enable"]:
                 tr.enable_features(sc["enable"])
         except Exception:
